@@ -1408,13 +1408,21 @@ impl ValidationCache {
     ) -> Option<Result<RrsetProof, ProofError>> {
         let (ttl, cached) = self.inner.lock().get_mut(key)?.clone();
 
-        if Instant::now() < ttl {
+        let now = Instant::now();
+        if now < ttl {
             debug!(
                 name = ?context.key.name,
                 record_type = ?context.key.record_type,
                 "returning cached DNSSEC validation",
             );
-            Some(cached)
+            // The authenticated TTL was computed when the verdict was cached. The entry does not
+            // outlive the signature (see `insert()`), so its remaining lifetime bounds the TTL
+            // that may still be handed out with the records.
+            let remaining = u32::try_from(ttl.duration_since(now).as_secs()).unwrap_or(u32::MAX);
+            Some(cached.map(|mut proof| {
+                proof.adjusted_ttl = proof.adjusted_ttl.map(|ttl| ttl.min(remaining));
+                proof
+            }))
         } else {
             debug!(
                 name = ?context.key.name,
